@@ -14,6 +14,8 @@ from .ordering import Ctx, arming, atomic_notifications, cancel_on_removal, ever
 
 
 def check(run, prog, tier):
+    from . import model as _model
+    _model.audit(run, prog, 'C09')
     run.explanation = (
         "TimedStore is analysed as a typestate machine: every stored value owns at most one live timer handle. "
         "All paths of every store-mutating method are enumerated (try/except/loops included); cancel-on-removal, "
